@@ -101,7 +101,13 @@ fn compile_native_asset_for_output(
     let policy = primitives::Hash::from(policy.as_slice());
     let asset_name = coercion::expr_into_bytes(&ir.asset_name)?;
     let amount = coercion::expr_into_number(&ir.amount)?;
-    let amount = primitives::PositiveCoin::try_from(amount as u64).unwrap();
+    let amount = coercion::number_into_u64(amount, "native asset amount")?;
+    let amount = primitives::PositiveCoin::try_from(amount).map_err(|_| {
+        Error::CoerceError(
+            amount.to_string(),
+            "positive native asset amount".to_string(),
+        )
+    })?;
 
     let asset = asset!(policy, asset_name.clone(), amount);
 
@@ -118,10 +124,17 @@ fn compile_native_asset_for_mint(
     let amount = coercion::expr_into_number(&ir.amount)?;
 
     let amount = if !is_burn {
-        primitives::NonZeroInt::try_from(amount as i64).unwrap()
+        Some(amount)
     } else {
-        primitives::NonZeroInt::try_from(-amount as i64).unwrap()
+        amount.checked_neg()
     };
+
+    let amount = amount
+        .ok_or_else(|| Error::CoerceError("burn amount".to_string(), "mint amount".to_string()))
+        .and_then(|x| coercion::number_into_i64(x, "mint amount"))?;
+
+    let amount = primitives::NonZeroInt::try_from(amount)
+        .map_err(|_| Error::CoerceError(amount.to_string(), "non-zero mint amount".to_string()))?;
 
     let asset = asset!(policy, asset_name.clone(), amount);
 
@@ -138,12 +151,46 @@ fn compile_value(ir: &tir::AssetExpr) -> Result<primitives::Value, Error> {
     let amount = coercion::expr_into_number(&ir.amount)?;
     if ir.policy.is_none() {
         compile_ada_value(ir)
-    } else if amount as i64 > 0 {
+    } else if amount > 0 {
         let asset = compile_native_asset_for_output(ir)?;
         Ok(value!(0, asset))
     } else {
         Ok(value!(0))
     }
+}
+
+/// Adds up the values of an output, failing if the lovelace or any native
+/// asset total does not fit the ledger's 64-bit amounts.
+fn aggregate_output_values(values: Vec<primitives::Value>) -> Result<primitives::Value, Error> {
+    let mut coin: u128 = 0;
+    let mut totals: BTreeMap<(primitives::PolicyId, primitives::AssetName), u128> = BTreeMap::new();
+
+    for value in values.iter() {
+        match value {
+            primitives::Value::Coin(x) => coin += *x as u128,
+            primitives::Value::Multiasset(x, assets) => {
+                coin += *x as u128;
+                for (policy, names) in assets.iter() {
+                    for (name, amount) in names.iter() {
+                        *totals.entry((*policy, name.clone())).or_default() +=
+                            u64::from(amount) as u128;
+                    }
+                }
+            }
+        }
+    }
+
+    if let Some(total) = std::iter::once(&coin)
+        .chain(totals.values())
+        .find(|x| **x > u64::MAX as u128)
+    {
+        return Err(Error::CoerceError(
+            total.to_string(),
+            "output amount".to_string(),
+        ));
+    }
+
+    Ok(asset_math::aggregate_values(values))
 }
 
 fn compile_adhoc_script(
@@ -201,7 +248,7 @@ fn compile_output_block(
         .map(compile_value)
         .collect::<Result<Vec<_>, _>>()?;
 
-    let value = asset_math::aggregate_values(values);
+    let value = aggregate_output_values(values)?;
 
     let datum_option = ir.datum.as_option().map(compile_data_expr).transpose()?;
 
@@ -235,9 +282,7 @@ fn compile_mint_block(tx: &tir::Tx) -> Result<Option<primitives::Mint>, Error> {
         .map(|x| compile_native_asset_for_mint(x, false))
         .collect::<Result<Vec<_>, _>>()?;
 
-    let mints = asset_math::aggregate_assets(mints);
-
-    let burns = tx
+    let burns_items = tx
         .burns
         .iter()
         .map(|x| coercion::expr_into_assets(&x.amount))
@@ -247,7 +292,25 @@ fn compile_mint_block(tx: &tir::Tx) -> Result<Option<primitives::Mint>, Error> {
         .map(|x| compile_native_asset_for_mint(x, true))
         .collect::<Result<Vec<_>, _>>()?;
 
-    let burns = asset_math::aggregate_assets(burns);
+    // the aggregation below drops an entry both when it cancels out and when it
+    // overflows: make sure every net quantity fits the ledger's signed 64 bits
+    let mut totals: BTreeMap<(primitives::PolicyId, primitives::AssetName), i128> = BTreeMap::new();
+
+    for (policy, names) in mints.iter().chain(burns_items.iter()).flatten() {
+        for (name, amount) in names.iter() {
+            *totals.entry((*policy, name.clone())).or_default() += i64::from(amount) as i128;
+        }
+    }
+
+    if let Some(total) = totals.values().find(|x| i64::try_from(**x).is_err()) {
+        return Err(Error::CoerceError(
+            total.to_string(),
+            "mint amount".to_string(),
+        ));
+    }
+
+    let mints = asset_math::aggregate_assets(mints);
+    let burns = asset_math::aggregate_assets(burns_items);
 
     let all = match (mints, burns) {
         (Some(mints), Some(burns)) => asset_math::aggregate_assets([mints, burns]),
@@ -327,7 +390,7 @@ pub fn compile_cardano_publish_directive(
         .iter()
         .map(compile_value)
         .collect::<Result<Vec<_>, _>>()?;
-    let value = asset_math::aggregate_values(values);
+    let value = aggregate_output_values(values)?;
 
     let datum_option = adhoc.data.get("datum").map(compile_data_expr).transpose()?;
 
@@ -383,7 +446,7 @@ pub fn compile_withdrawal_directive(
         .get("amount")
         .ok_or(Error::MissingExpression("withdrawal amount".to_string()))?;
     let amount = coercion::expr_into_number(amount)?;
-    let amount = primitives::Coin::try_from(amount as u64).unwrap();
+    let amount: primitives::Coin = coercion::number_into_u64(amount, "withdrawal amount")?;
 
     Ok((credential, amount))
 }
@@ -478,13 +541,15 @@ fn compile_validity(validity: Option<&tir::Validity>) -> Result<(Option<u64>, Op
         .and_then(|v| v.since.as_option())
         .map(coercion::expr_into_number)
         .transpose()?
-        .map(|n| n as u64);
+        .map(|n| coercion::number_into_u64(n, "slot"))
+        .transpose()?;
 
     let until = validity
         .and_then(|v| v.until.as_option())
         .map(coercion::expr_into_number)
         .transpose()?
-        .map(|n| n as u64);
+        .map(|n| coercion::number_into_u64(n, "slot"))
+        .transpose()?;
 
     Ok((since, until))
 }
@@ -497,7 +562,8 @@ fn compile_donation(tx: &tir::Tx) -> Result<Option<pallas::codec::utils::Positiv
         .map(coercion::expr_into_number)
         .transpose()?
         .map(|amount| {
-            pallas::codec::utils::PositiveCoin::try_from(amount as u64).map_err(|_| {
+            let coin = coercion::number_into_u64(amount, "donation amount")?;
+            pallas::codec::utils::PositiveCoin::try_from(coin).map_err(|_| {
                 Error::CoerceError(
                     format!("Invalid donation amount: {}", amount),
                     "PositiveCoin".to_string(),
@@ -516,7 +582,7 @@ fn compile_tx_body(
     let out = primitives::TransactionBody {
         inputs: compile_inputs(tx)?.into(),
         outputs: compile_outputs(tx, network)?,
-        fee: coercion::expr_into_number(&tx.fees)? as u64,
+        fee: coercion::number_into_u64(coercion::expr_into_number(&tx.fees)?, "fee")?,
         certificates: primitives::NonEmptySet::from_vec(compile_certs(tx, network)?),
         mint: compile_mint_block(tx)?,
         reference_inputs: primitives::NonEmptySet::from_vec(compile_reference_inputs(tx)?),
@@ -545,7 +611,7 @@ fn compile_auxiliary_data(tx: &tir::Tx) -> Result<Option<primitives::AuxiliaryDa
         .metadata
         .into_iter()
         .map(|x| {
-            let key = expr_into_number(&x.key)? as u64;
+            let key = coercion::number_into_u64(expr_into_number(&x.key)?, "metadata label")?;
             let value = expr_into_metadatum(&x.value)?;
             Ok((key, value))
         })
